@@ -119,7 +119,9 @@ impl Document {
         }
         for content in &self.after {
             let node = create_document_content_node(xot, content);
-            xot.append(child, node).unwrap();
+            // trailing content follows the document element, it is not
+            // part of it
+            xot.append(document, node).unwrap();
         }
         document
     }
